@@ -149,9 +149,6 @@ func (l *Link) onPoint(point string, cl *mqtt.Client) {
 	l.parkedAt = point
 	l.mu.Unlock()
 	<-ch
-	l.mu.Lock()
-	l.parkedAt = ""
-	l.mu.Unlock()
 }
 
 // ParkAt asks the handler to stop at the named schedule point the next time it gets there.
@@ -169,6 +166,9 @@ func (l *Link) Release(point string) bool {
 	ch, ok := l.release[point]
 	if ok {
 		delete(l.release, point)
+		if l.parkedAt == point {
+			l.parkedAt = "" // from this moment the handler counts as running, not as parked (it may not have woken up yet)
+		}
 	}
 	l.mu.Unlock()
 	if ok {
@@ -185,6 +185,9 @@ func (l *Link) ReleaseAll() {
 	}
 	chs := l.release
 	l.release = map[string]chan struct{}{}
+	if len(chs) > 0 {
+		l.parkedAt = ""
+	}
 	l.mu.Unlock()
 	for _, ch := range chs {
 		close(ch)
